@@ -1100,6 +1100,13 @@ def gen_concurrent(seed, tier, focus="C12"):
     cfg["net"]["jitter"] = ch.pick("config", "jitter2", [0.05, 0.5, 0.5])
     # shares lost before the writers start (a server lost its disk but stays up): both writers will want to re-create them
     cfg["lost"] = sorted(ch.sample("faults", "lost", range(cfg["n"]), ch.pick("faults", "nlost", [0, 0, 1, 1, 2])))
+    # a partitioned grid: each writer cannot reach some of the servers (different ones), so the writers re-home shares on
+    # different servers and find each other's shares where they expected none
+    cfg["unreach"] = [sorted(ch.sample("faults", ("unreach", wi), range(cfg["nservers"]), ch.pick("faults", ("nunreach", wi), [0, 0, 0, 1, 2, 3])))
+                      for wi in range(nw)]
+    # one writer holds a version object from before the other's publish and uses it `held_wait` simulated seconds later
+    cfg["held"] = ch.chance("config", "held", 0.2)
+    cfg["held_wait"] = ch.pick("config", "held-wait", [0, 30, 61, 3600, 86400])
     return {"engine": "mutsim", "profile": "concurrent", "focus": "C12", "seed": seed, "cfg": cfg, "ops": ops, "faults": []}
 
 
@@ -1139,9 +1146,34 @@ def exec_concurrent(case):
         writers = []
         results = {}
         wops = [op for op in case["ops"] if op[0] == "write"]
+        if cfg.get("held") and len(wops) >= 2:
+            # compare-and-swap through a long-held version object: B surveys, A publishes, time passes, B overwrites through the
+            # version object of its old survey -- B must be told (UncoordinatedWriteError), A's version must not vanish silently
+            ca = g.add_client(k=k, happy=1, n=n, fmt=cfg["fmt"])
+            cb = g.add_client(k=k, happy=1, n=n, fmt=cfg["fmt"])
+            stb, mfv = run(cb.create_node_from_uri(cap).get_best_mutable_version(), 300_000)
+            settle(300_000)
+            data_a = pat_bytes(wops[0][4], wops[0][3])
+            data_b = pat_bytes(wops[1][4], wops[1][3])
+            sta, _ra = run(ca.create_node_from_uri(cap).overwrite(MutableData(data_a)), 300_000)
+            settle(300_000)
+            if stb == "ok" and sta == "ok":
+                R.advance(cfg.get("held_wait", 0))
+                stw, rw_ = run(mfv.overwrite(MutableData(data_b)), 300_000)
+                settle(300_000)
+                probe("held-overwrite-%s" % (stw if stw != "err" else err_name(rw_)))
+                if stw == "ok":
+                    bad("held-version-overwrite-clobbered", "a writer that surveyed before another writer's successful publish overwrote the file through "
+                        "the version object of that old survey %d simulated seconds later and was told it succeeded: the other writer's version is "
+                        "silently gone" % cfg.get("held_wait", 0))
+            return finish(g, viol, probes, case, ("C12",))
         for op in wops:
             _, wi, kind, size, pat, start = op
             c = g.add_client(k=k, happy=1, n=n, fmt=cfg["fmt"])      # separate NodeMaker: no shared serializer
+            for sidx in (cfg.get("unreach") or [[]] * 8)[wi % 8] if cfg.get("unreach") else []:
+                if sidx < len(g.servers):
+                    g.net.disconnect(c.sim_name, g.servers[sidx].name, "partition: writer %d cannot reach this server" % wi)
+                    probe("writer-server-unreachable")
             nodew = c.create_node_from_uri(cap)
             data = pat_bytes(pat, size)
             writers.append((wi, c, nodew, kind, data))
@@ -1212,6 +1244,32 @@ def exec_concurrent(case):
                             wv["caller"], shnum, wv["callee"], struct.unpack(">Q", before_head[1:9])[0],
                             ("seq %d" % struct.unpack(">Q", seen[shnum][1:9])[0]) if shnum in seen else "no such share"))
                     break
+        # (b') a writer whose write answer shows, on that server, a share it neither wrote in that call nor had been shown there
+        # before (somebody else put it there since the survey) has met an uncoordinated writer: an overwrite must not
+        # report success
+        surprised = {}
+        for wv in mon.writes:
+            if wv["si"] != si or not isinstance(wv.get("res"), tuple) or len(wv["res"]) < 2 or not isinstance(wv["res"][1], dict):
+                continue
+            timeline = []
+            for a_ in getattr(mon, "shown", []):
+                if a_["caller"] == wv["caller"] and a_["callee"] == wv["callee"] and a_["n"] < wv["n"] and a_["si"] == si:
+                    timeline.append((a_["n"], a_["heads"], a_.get("filtered")))
+            known = {}
+            for (n_, heads_, filtered_) in sorted(timeline, key=lambda t: t[0]):
+                if filtered_:
+                    known.update(heads_)
+                else:
+                    known = dict(heads_)
+            for w2 in mon.writes:
+                if w2["caller"] == wv["caller"] and w2["callee"] == wv["callee"] and w2["n"] < wv["n"] and w2["ok"] is True and w2["si"] == si:
+                    for shnum in w2["tw"]:
+                        known.setdefault(shnum, b"own")
+            for shnum, lst in wv["res"][1].items():
+                if shnum in wv["tw"] or not lst or not isinstance(lst[0], bytes) or not lst[0]:
+                    continue
+                if shnum not in known:
+                    surprised.setdefault(wv["caller"], []).append((wv["callee"], shnum))
         # (b) per writer: refused writes must not end in silent success
         by_writer = {}
         for wv in mon.writes:
@@ -1229,6 +1287,10 @@ def exec_concurrent(case):
                     # an overwrite does not retry: a refused test vector must surface as UncoordinatedWriteError
                     bad("refused-write-but-success", "writer %d (overwrite) had %d of its %d writes refused by test vectors yet reported success" % (
                         wi, len(refused), len(mine)))
+                if kind == "overwrite" and surprised.get(c.sim_name):
+                    probe("surprise-share-seen")
+                    bad("surprise-share-but-success", "writer %d (overwrite) was shown shares it had never seen and did not write %r (server, share number) in "
+                        "the answers to its writes -- another writer's work -- yet reported success" % (wi, surprised[c.sim_name][:4]))
                 if refused:
                     probe("writer-ok-after-refusal-and-retry")
             else:
@@ -1264,7 +1326,9 @@ def exec_concurrent(case):
                 ok_shape = (r_ == b"")
             if not ok_shape:
                 bad("clobbered-bytes", "final contents (%d bytes) are not a base written by someone plus tokens appended by the modifiers" % len(res))
-            elif only_modifiers:
+            elif only_modifiers and not any(cfg.get("unreach") or []):
+                # (with a partitioned grid two versions with the same sequence number can both stay recoverable, each out of
+                # the other writer's reach; C12 promises detection per publish, not that modify()'s retries merge them)
                 for wi, tk in tokens.items():
                     if results.get(wi, ("?",))[0] == "ok" and tk not in res:
                         bad("lost-update", "writer %d's modify() reported success but its change is missing from the final contents (the other writer's publish replaced it without either noticing)" % wi)
